@@ -54,7 +54,11 @@ func (s *Session) Send(client int, rq *gen.Request) *ReqRecord {
 	if method == "" {
 		method = "POST"
 	}
-	hr, err := http.NewRequest(method, s.W.Server.URL+rq.Path, bytes.NewReader(rq.Body))
+	var body io.Reader = bytes.NewReader(rq.Body)
+	if rq.SlowUploadMs > 0 {
+		body = &slowReader{b: rq.Body, pause: time.Duration(rq.SlowUploadMs) * time.Millisecond}
+	}
+	hr, err := http.NewRequest(method, s.W.Server.URL+rq.Path, body)
 	if err != nil {
 		rec.Err = "build: " + err.Error()
 		rec.SendT, rec.AnsT = Tick(), Tick()
@@ -85,6 +89,28 @@ func (s *Session) Send(client int, rq *gen.Request) *ReqRecord {
 	rec.Answers = 1
 	rec.Wall = time.Since(start)
 	return rec
+}
+
+// slowReader hands the body out in 512 KiB pieces with a pause after each.
+type slowReader struct {
+	b     []byte
+	off   int
+	sent  int
+	pause time.Duration
+}
+
+func (r *slowReader) Read(p []byte) (int, error) {
+	if r.off >= len(r.b) {
+		return 0, io.EOF
+	}
+	if r.sent >= 512<<10 {
+		time.Sleep(r.pause)
+		r.sent = 0
+	}
+	n := copy(p, r.b[r.off:min(len(r.b), r.off+min(len(p), 512<<10-r.sent))])
+	r.off += n
+	r.sent += n
+	return n, nil
 }
 
 // ---- analysis of a ledger ----
